@@ -1,0 +1,43 @@
+//! Verification seam, compiled only with `--cfg adf_obdd_verif` (off by default).
+//!
+//! A thread-local step counter with a budget: a simulator arms it before calling into the
+//! library and the search loops call [`tick`] once per iteration. When the budget is exceeded
+//! the thread unwinds with a [`BudgetExceeded`] payload, so that termination is decided in
+//! counted steps and never by a wall-clock watchdog.
+
+use std::cell::Cell;
+
+/// Unwind payload used by [`tick`] when the armed budget is exceeded.
+#[derive(Debug, Clone, Copy, PartialEq, Eq)]
+pub struct BudgetExceeded {
+    /// Number of ticks counted when the budget was exceeded.
+    pub ticks: u64,
+}
+
+thread_local! {
+    static TICKS: Cell<u64> = const { Cell::new(0) };
+    static BUDGET: Cell<u64> = const { Cell::new(u64::MAX) };
+}
+
+/// Reset the calling thread's counter and set its budget.
+pub fn arm(budget: u64) {
+    TICKS.with(|t| t.set(0));
+    BUDGET.with(|b| b.set(budget));
+}
+
+/// Ticks counted on the calling thread since the last [`arm`].
+pub fn ticks() -> u64 {
+    TICKS.with(|t| t.get())
+}
+
+/// Count one step; unwinds with [`BudgetExceeded`] past the budget.
+pub fn tick() {
+    let n = TICKS.with(|t| {
+        let n = t.get() + 1;
+        t.set(n);
+        n
+    });
+    if n > BUDGET.with(|b| b.get()) {
+        std::panic::resume_unwind(Box::new(BudgetExceeded { ticks: n }));
+    }
+}
